@@ -25,6 +25,8 @@
 //	var-decl      x := e                    →  var x = e
 //	rename-local  a local variable renamed consistently (fresh name)
 //	move-func     a function declaration moved to the end of its file
+//	rename-func   an unexported function or method renamed consistently (not referenced by tests, not an interface method)
+//	rename-field  an unexported struct field renamed consistently (not referenced by tests)
 //	method-func   unexported method m of T  →  function m(recv T, …), every call x.m(a) → m(x, a)
 package main
 
@@ -815,6 +817,34 @@ func structuralSites(parsed map[string]*ast.File, names []string, testText strin
 			}
 		}
 	}
+	// rename-field: every unexported field of a struct type declared in the package
+	for _, f := range names {
+		af := parsed[f]
+		f := f
+		ast.Inspect(af, func(n ast.Node) bool {
+			st, ok := n.(*ast.StructType)
+			if !ok || st.Fields == nil {
+				return true
+			}
+			for _, fl := range st.Fields.List {
+				for _, nm := range fl.Names {
+					obj, _ := info.Defs[nm].(*types.Var)
+					if obj == nil || !obj.IsField() || ast.IsExported(nm.Name) || nm.Name == "_" || strings.Contains(testText, "."+nm.Name) || strings.Contains(testText, nm.Name+":") {
+						continue
+					}
+					ids := idents[obj]
+					nm := nm
+					out = append(out, site{file: f, line: fset.Position(nm.Pos()).Line, op: "rename-field", detail: nm.Name, files: names, apply: func() {
+						nn := nm.Name + "Eq"
+						for _, x := range ids {
+							x.Name = nn
+						}
+					}})
+				}
+			}
+			return true
+		})
+	}
 	for _, f := range names {
 		af := parsed[f]
 		f := f
@@ -824,6 +854,17 @@ func structuralSites(parsed map[string]*ast.File, names []string, testText strin
 				continue
 			}
 			fd, di := fd, di
+			// rename-func
+			if fo, _ := info.Defs[fd.Name].(*types.Func); fo != nil && !ast.IsExported(fd.Name.Name) && fd.Name.Name != "init" && fd.Name.Name != "main" && fd.Name.Name != "_" &&
+				!(fd.Recv != nil && ifaceMethods[fd.Name.Name]) && !strings.Contains(testText, fd.Name.Name+"(") && !strings.Contains(testText, "."+fd.Name.Name) {
+				ids := idents[fo]
+				out = append(out, site{file: f, line: fset.Position(fd.Pos()).Line, op: "rename-func", detail: fd.Name.Name, files: names, apply: func() {
+					nn := fd.Name.Name + "Eq"
+					for _, x := range ids {
+						x.Name = nn
+					}
+				}})
+			}
 			// move-func
 			if di != len(af.Decls)-1 {
 				out = append(out, site{file: f, line: fset.Position(fd.Pos()).Line, op: "move-func", detail: fd.Name.Name, apply: func() {
